@@ -2,6 +2,7 @@ import Soa.Model.Exec
 import Soa.Lemmas.SkelTie
 import Soa.Lemmas.SkelRefsTie
 import Soa.Lemmas.LoopTie
+import Soa.Lemmas.LoopTieW
 /-!
 # What the driver executes is the hand-written model (on every lockstep container)
 
@@ -57,11 +58,17 @@ theorem dropVec_eq (dr : Bool) (hc : c.lock n) : dropVec dr c = Model.dropVec dr
   simp [dropVec, methods_eq, drop_tie dr c c (truncate dr) swapWhole n (c.firstLen + 2) hc
     (by rw [firstLen_lock c n hc]; omega)]
 
+/-- `retain` and `retain_mut`, with any answers, any panicking call and any writes by the callback -/
+theorem retain_eq_w (dr mut_ : Bool) (keep : Nat → Bool) (boom : Option Nat) (touch : Nat → Nat → Option (Nat × Nat))
+    (hc : c.lock n) :
+    retain dr mut_ c keep boom touch = Model.retain dr c keep boom touch := by
+  have h := retain_tie_w dr c c (truncate dr) swapWhole (trOk_truncate dr) swOk_swapWhole keep boom touch n (c.firstLen + 2) hc
+  cases mut_ <;> simp [retain, methods_eq, h.1, h.2]
+
 /-- `retain` and `retain_mut` with a callback that does not write -/
 theorem retain_eq (dr mut_ : Bool) (keep : Nat → Bool) (boom : Option Nat) (hc : c.lock n) :
-    retain dr mut_ c keep boom (fun _ _ => none) = Model.retain dr c keep boom (fun _ _ => none) := by
-  have h := retain_tie dr c c (truncate dr) swapWhole (trOk_truncate dr) swOk_swapWhole keep boom n (c.firstLen + 2) hc
-  cases mut_ <;> simp [retain, methods_eq, h.1, h.2]
+    retain dr mut_ c keep boom (fun _ _ => none) = Model.retain dr c keep boom (fun _ _ => none) :=
+  retain_eq_w dr mut_ keep boom _ hc
 
 theorem resize_eq (dr : Bool) (k : Nat) (hc : c.lock n) (he : e.lock 1) (hs : c.same e) :
     resize dr c k e = Model.resize dr c k e := by
